@@ -51,6 +51,8 @@ def collect(args):
     muts = []
     fixed = known_fixed_props()
     for h, subj in fix_commits():
+        if os.path.exists(os.path.join(VERIF, "mutants", f"revert-{h}.patch")):
+            continue  # the revert conflicts with a later fix and is kept as a hand-made patch of the same name
         prop = fixed.get(h)
         muts.append({"name": f"revert-{h}", "kind": "revert", "commit": h, "property": prop, "checks": [prop] if prop else [], "desc": subj})
     mdir = os.path.join(VERIF, "mutants")
